@@ -39,3 +39,8 @@ def run(ctx):
         s["judge"] = JUDGE
         s["name"] = "t%d" % i
     C01.run_family(ctx, scens + extra, 400 if quick else 15000, "C02")
+
+
+def replay_witness(ctx, witness):
+    from adapters import poolsim
+    return poolsim.replay_witness(ctx, witness)
